@@ -91,10 +91,14 @@ func specGenuineER6(s *icmpDriver, p *packets.FrameParser, t uint8) bool {
 }
 
 //@ assume func extractEchoRequest
-//@ trusted gopacket DecodingLayerParser over {ICMPv6, ICMPv6Echo}: transcribed from gopacket v1.1.19 icmp6.go / icmp6msg.go
-//@ ensures[ext.ok]     ret1 == nil ==> ret0 != nil && fresh(ret0) && len(icmpInfo.Payload) >= 8 && (icmpInfo.Payload[0] == 128 || icmpInfo.Payload[0] == 129)
-//@ ensures[ext.val]    ret1 == nil ==> int(ret0.Identifier) == int(be16(icmpInfo.Payload, 4)) && int(ret0.SeqNumber) == int(be16(icmpInfo.Payload, 6))
+//@ trusted gopacket DecodingLayerParser over {ICMPv6, ICMPv6Echo}: transcribed from gopacket v1.1.19 icmp6.go / icmp6msg.go / parser.go; sampled against the real function on every run (conformance test generated from these clauses)
+// DecodeLayers stops without error when the data is used up: a message of exactly 4 bytes (ICMPv6 header only) leaves the
+// echo layer undecoded (all zero) and is not an error; 5..7 bytes fail in the echo decoder.
+//@ ensures[ext.ok]     ret1 == nil ==> ret0 != nil && fresh(ret0) && (len(icmpInfo.Payload) == 4 || (len(icmpInfo.Payload) >= 8 && (icmpInfo.Payload[0] == 128 || icmpInfo.Payload[0] == 129)))
+//@ ensures[ext.val]    ret1 == nil && len(icmpInfo.Payload) >= 8 ==> int(ret0.Identifier) == int(be16(icmpInfo.Payload, 4)) && int(ret0.SeqNumber) == int(be16(icmpInfo.Payload, 6))
+//@ ensures[ext.zero]   ret1 == nil && len(icmpInfo.Payload) == 4 ==> ret0.Identifier == 0 && ret0.SeqNumber == 0
 //@ ensures[ext.compl]  len(icmpInfo.Payload) >= 8 && icmpInfo.Payload[0] == 128 ==> ret1 == nil
+//@ ensures[ext.atom]   ret1 != nil ==> ret0 == nil
 //@ ensures[ext.class]  ret1 != nil ==> noRepoErr(ret1)
 //@ modifies nothing
 
@@ -125,7 +129,9 @@ func specGenuineER6(s *icmpDriver, p *packets.FrameParser, t uint8) bool {
 //@ ensures[C01+C05+C11.sound.kind]  ret0 != nil ==> specIsTE4(parser) || specIsER4(parser) || specIsTE6(parser) || specIsER6(parser)
 //@ ensures[C01+C05+C11.sound.te4]   ret0 != nil && specIsTE4(parser) ==> specGenuineTE4(s, parser, ret0.TTL)
 //@ ensures[C01+C05+C11.sound.er4]   ret0 != nil && specIsER4(parser) ==> specGenuineER4(s, parser, ret0.TTL)
-//@ ensures[C01+C05+C11.sound.te6]   ret0 != nil && specIsTE6(parser) && packets.SpecQ6Next(parser.ICMP6.Payload) != 0 ==> specGenuineTE6(s, parser, ret0.TTL)
+// (a quote cut right after the 4-byte ICMPv6 header decodes to identifier 0 / sequence 0: it can only name TTL 0, which no
+// run probes — both engines reject MinTTL < 1 before the first send, C19.*.valid — hence the hypothesis MinTTL >= 1)
+//@ ensures[C01+C05+C11.sound.te6]   ret0 != nil && specIsTE6(parser) && packets.SpecQ6Next(parser.ICMP6.Payload) != 0 && s.params.ParallelParams.MinTTL >= 1 ==> specGenuineTE6(s, parser, ret0.TTL)
 //@ ensures[C01+C05+C11.sound.er6]   ret0 != nil && specIsER6(parser) ==> specGenuineER6(s, parser, ret0.TTL)
 //@ ensures[C01.addr]        ret0 != nil ==> ret0.IP == specOuterSrc(parser)
 //@ ensures[C02.compl.te4]   forall(t, 0, 256, specGenuineTE4(s, parser, t) && specPlainTE4(parser) ==> ret0 != nil && int(ret0.TTL) == t)
